@@ -14,10 +14,14 @@ pub mod c15;
 pub mod c16;
 pub mod c17;
 pub mod c18;
+pub mod c19;
 pub mod c20;
 
 /// entry for internal child-process sub-commands
 pub fn child_main(args: &[String]) -> i32 {
+    if args.first().map(|s| s.as_str()) == Some("--c19-child") {
+        return c19::child_main(&args[1..]);
+    }
     if args.first().map(|s| s.as_str()) == Some("--c20-child") {
         return c20::child_main(&args[1..]);
     }
